@@ -55,6 +55,10 @@ CHECKS = {
             "§6 C19",
             "proof of the decision logic + kernel-evaluated entry-point table (regenerated from the source) + differential runtime check with hostile documents",
             "PARTIAL by nature: expat and defusedxml are trusted libraries; the model is the hardened parser's decision logic over the expat event stream and the wiring of the four entry points. What the model cannot exhibit: expat's own behaviour on malformed input, memory use of the C parser."),
+    "C09": ("Lean 4 theorems all_sites_readonly and single_writer (decide over the I/O call-site table re-extracted from the source AST of every module on every run: path opens only 'rb'/'r', read_text/read_bytes only, write-like methods only on private in-memory streams — directly or through helpers all of whose callers pass one —, no os/shutil/tempfile/subprocess/socket/mmap calls, no dynamic evaluation, no in-place crypto output, no buffer aliasing of caller handles; the only writers are the two --output lines of tools/envelope.py: main), readonly_trace_preserves_fs (induction over traces on an abstract file system), only_the_named_output_changes, firstViolation_none_iff; runtime audit (sys.addaudithook attributed to dissect.hypervisor frames + recording handles that accept writes + content comparison) over the C01-C07/C10/C20 workloads, envelope decrypt, Hyper-V files incl. outstanding replay-log entries, VMX unlock, OVF/VBox/PVS and the decrypt tool; the observed trace is judged by the Lean model and every path open must map to an extracted site",
+            "§6 C09",
+            "kernel-evaluated call-site table (regenerated from the source) + proof over operation traces + runtime audit correspondence",
+            "PARTIAL for the 'all code paths' clause: the table covers what is visible in the AST (it also proves there is no dynamic dispatch site), the runtime audit is sampling; effects inside C extensions that raise no audit event are invisible."),
 }
 
 NOT_YET = {
